@@ -180,16 +180,17 @@ let handle (case : string list) (impl : string list) : string * string =
     (model, show_verdict (judge_sfs t v i1 i2))
   | "tj" ->
     let name = next () in let hexs = next () in
-    (match lookup_serde (coqstr name) (serde_table depth3) with
+    (match lookup_serde (coqstr name) (j_table depth3) with
      | None -> ("skip unannotated-type", "na")
      | Some (sch, a) ->
        (match dec sch (bytes_of_hex hexs) with
         | Ok (v, []) ->
           let j = j_json a v in
-          let leg2 = (match j_of_json a j with
-              | Ok v' -> "ok " ^ hex_of_bytes (enc sch v') ^ (if val_eqb v v' then " eq=1" else " eq=0")
-              | r -> show_leg s_hex (match r with Err -> Err | Panic -> Panic | _ -> OutOfFuel)) in
-          let model = "ok " ^ show s_json j ^ " ; " ^ leg2 in
+          let model =
+            if not (j_wf a v) then "err"      (* outside the domain of the annotation: serde cannot write the value *)
+            else "ok " ^ show s_json j ^ " ; " ^ (match j_of_json a j with
+                | Ok v' -> "ok " ^ hex_of_bytes (enc sch v')
+                | r -> show_leg s_hex (match r with Err -> Err | Panic -> Panic | _ -> OutOfFuel)) in
           set impl;
           let i1 = (match parse_leg p_json with Some r -> r | None -> OutOfFuel) in
           sep (); let i2 = (match parse_leg hexb with Some r -> let e = eq_flag () in Some (r, e) | None -> None) in
@@ -216,7 +217,7 @@ let add_tj_cases (file : string) : unit =
   List.iter (fun line ->
       match split_ws line with
       | ["rt"; name; hexs] ->
-        (match lookup_serde (coqstr name) (serde_table depth3) with
+        (match lookup_serde (coqstr name) (j_table depth3) with
          | Some (sch, a) ->
            (match (try dec sch (bytes_of_hex hexs) with _ -> Err) with
             | Ok (v, []) -> Printf.fprintf oc "tj %s %s %s\n" name hexs (show s_json (j_json a v))
